@@ -8,7 +8,9 @@ import (
 
 func TestMain(m *testing.M) { ev.Main(m) }
 
-func TestDecode(t *testing.T)    { decProp.Test(t) }
-func TestMalformed(t *testing.T) { malProp.Test(t) }
+func TestDecode(t *testing.T)      { decProp.Test(t) }
+func TestMalformed(t *testing.T)   { malProp.Test(t) }
+func TestMalformed10(t *testing.T) { mal10Prop.Test(t) }
+func TestSizes(t *testing.T)       { runSizes(t) }
 
 func TestDriver(t *testing.T) { drvProp.Test(t) }
